@@ -1,7 +1,7 @@
 (* C15/Props.v — the property theorems, nothing else.  Each is closed by [exact] of a lemma of
    Proofs.v and followed by Print Assumptions (parsed by the harness on every run). *)
 From Coq Require Import ZArith List.
-From FV Require Import Base.Res Base.BE C15.Model C15.Proofs.
+From FV Require Import Base.Res Base.BE C15.Model C15.Proofs C15.ModelDeltas C15.ProofsDeltas.
 Import ListNotations.
 Open Scope Z_scope.
 
@@ -47,3 +47,15 @@ Theorem eexec_encrypt_decrypt : forall cs R, Forall is_byte cs ->
   encrypt (fst (decrypt cs R)) R = (cs, snd (decrypt cs R)).
 Proof. exact Proofs.eexec_encrypt_decrypt. Qed.
 Print Assumptions eexec_encrypt_decrypt.
+
+(* packed deltas (gvar/cvar run-length format, optimizeSize=True): whatever compiles decodes back to itself, consuming exactly the
+   bytes written -- zero, byte, word and long runs, runs longer than 64, every mixture *)
+Theorem deltas_roundtrip : forall ds bytes, compileDeltaValues ds = Ok bytes -> decompileDeltas (length ds) bytes = Ok (ds, []).
+Proof. exact ProofsDeltas.deltas_roundtrip. Qed.
+Print Assumptions deltas_roundtrip.
+
+(* ... and every list of int32 values compiles *)
+Theorem deltas_roundtrip_total : forall ds, forallb in32 ds = true ->
+  exists bytes, compileDeltaValues ds = Ok bytes /\ decompileDeltas (length ds) bytes = Ok (ds, []).
+Proof. exact ProofsDeltas.deltas_roundtrip_total. Qed.
+Print Assumptions deltas_roundtrip_total.
